@@ -269,7 +269,7 @@ func TestC15(t *testing.T) {
 	rc.Probes, rc.Marks = true, true
 	cfg := rsGenCfg{Rules: rc, Vary: true, MaxCycle: func(rt *rapid.T) uint64 { return uint64(rapid.IntRange(1, 6).Draw(rt, "maxcycle")) }}
 	exhaustiveAll := true
-	check(t, 0, budget(350, 9000), func(rt *rapid.T) {
+	check(t, 0, budget(1000, 9000), func(rt *rapid.T) {
 		c, rs := genRSCase(rt, cfg)
 		c.ErrOnFail = rapid.IntRange(0, 3).Draw(rt, "err_on_fail") == 0
 		prep, err := val.Prepare(c)
